@@ -10,7 +10,7 @@ Require Import Gen.LockSkel Gen.Known.
 Local Open Scope string_scope.
 
 Eval vm_compute in (map report_line skels).
-Eval vm_compute in (all_obligations known_open skels helper_skels shape_facts).
+Eval vm_compute in (all_obligations known_open skels helper_skels shape_facts inplace_byte_writes escaping_byte_replies).
 
 (* every access under the key's lock in a sufficient mode, two-phase sections, every exit path
    releases, no CheckTTL / lock call inside a held region, nothing unclassified *)
@@ -27,6 +27,10 @@ Goal obl_helpers helper_skels = true. Proof. vm_compute. reflexivity. Qed.
    sorted positions; concurrentmap.go: the key counter is updated atomically and Keys() does not
    index a slice sized from it *)
 Goal obl_facts shape_facts = true. Proof. vm_compute. reflexivity. Qed.
+(* replies are serialised after the lock is released and hand out the stored []byte: no executor
+   and no value-object method may write into a stored byte slice in place (C05_aliasing_reply_refuted
+   shows the torn read otherwise) *)
+Goal obl_replies inplace_byte_writes escaping_byte_replies = true. Proof. vm_compute. reflexivity. Qed.
 (* no empty alternative list (side condition of go_bodies_all_sound: goroutines started from
    deferred calls are covered too) *)
 Goal forallb (fun p => neb (snd p)) (skels ++ helper_skels) = true. Proof. vm_compute. reflexivity. Qed.
